@@ -1194,6 +1194,9 @@ func (r *reader) pushChar(src []byte) {
 
 func (r *reader) pushInteger(src []byte) {
 	token := string(r.makeToken(src))
+	if r.base < 2 || 36 < r.base {
+		r.raise("%d is not a valid radix for #%dr%s", r.base, r.base, token)
+	}
 	var obj Object
 	if i, err := strconv.ParseInt(token, r.base, 64); err == nil {
 		obj = Fixnum(i)
